@@ -82,7 +82,7 @@ func genValue(c *sim.Ctx, depth int) interface{} {
 
 var msgKeys = []string{"a", "b", "c"}
 var bsKeys = []string{"n", "f", "s"}
-var varNames = []string{"?v", "?w"}
+var varNames = []string{"?v", "?w", "?t~"}
 
 var ineqName = "?<n"
 
@@ -182,7 +182,7 @@ func genAction(c *sim.Ctx, cfg genCfg, names []string, guard bool) *ref.Action {
 		if cfg.stubs && c.Chance(1, 4, "stub") {
 			// "same": hands back the very bindings it was given, as the shipped noop
 			// interpreter and the sio captain's native action do
-			a.Stub = []string{"nil-err", "partial-err", "nil-bs", "no-events", "same", "same", "no-traces"}[c.Intn(7, "stubkind")]
+			a.Stub = []string{"nil-err", "partial-err", "nil-bs", "no-events", "same", "same", "no-traces", "slice-err"}[c.Intn(8, "stubkind")]
 		} else if cfg.sameStub && c.Chance(1, 5, "samestub") {
 			a.Stub = "same"
 		}
@@ -228,6 +228,9 @@ func genAction(c *sim.Ctx, cfg genCfg, names []string, guard bool) *ref.Action {
 			a.Ops = append(a.Ops, ref.Op{Kind: "del", K: append(append([]string{}, bsKeys...), "?v", "k!")[c.Intn(5, "delkey")]})
 		case k == 8:
 			a.Ops = append(a.Ops, ref.Op{Kind: "clear"})
+		case k == 9 && !a.Native && c.Chance(1, 3, "setundef"):
+			// a binding whose value is undefined: it comes back bound to nothing (null), it does not vanish
+			a.Ops = append(a.Ops, ref.Op{Kind: "setundef", K: bsKeys[c.Intn(3, "suk")]})
 		case k == 9:
 			a.Ops = append(a.Ops, ref.Op{Kind: "setfrom", K: bsKeys[c.Intn(3, "sfk")], K2: "?v"})
 		case k == 10:
@@ -276,7 +279,11 @@ func genSpec(c *sim.Ctx, cfg genCfg) *ref.Spec {
 		names[i] = fmt.Sprintf("n%d", i)
 	}
 	s := &ref.Spec{Nodes: map[string]*ref.Node{}}
-	switch c.Intn(4, "errmode") {
+	switch c.Intn(5, "errmode") {
+	case 4:
+		// both settings: the error branches take precedence over the designated node
+		s.ActionErrorBranches = true
+		s.ActionErrorNode = names[c.Intn(nn, "aerrnode2")]
 	case 1:
 		s.ActionErrorBranches = true
 	case 2:
@@ -456,6 +463,8 @@ func renderJS(a *ref.Action) string {
 			sb.WriteString("return [1];\n")
 		case "retfn":
 			sb.WriteString("return function() { return 1; };\n")
+		case "setundef":
+			fmt.Fprintf(&sb, "bs[%s] = undefined;\n", jsLit(op.K))
 		case "globalinc":
 			sb.WriteString("var G = (new Function(\"return this\"))(); G.cnt = (G.cnt || 0) + 1; Math.cnt = (Math.cnt || 0) + 1; bs[\"g\"] = G.cnt + Math.cnt;\n")
 		case "randstr":
@@ -501,6 +510,11 @@ func renderJS(a *ref.Action) string {
 
 var errStub = errors.New("stub interpreter error")
 
+// errList is an error made of several (like go/scanner.ErrorList): not hashable.
+type errList []error
+
+func (e errList) Error() string { return fmt.Sprintf("%d errors, first: %v", len(e), e[0]) }
+
 // nativeHook, when set by a harness, runs at the start of every native action or guard.
 var nativeHook func()
 
@@ -511,6 +525,9 @@ func nativeAction(a *ref.Action) *core.FuncAction {
 		switch a.Stub {
 		case "nil-err":
 			return nil, errStub
+		case "slice-err":
+			// an error value of a type that cannot be a map key
+			return nil, errList{errStub, errStub}
 		case "partial-err":
 			exe := core.NewExecution(nil)
 			exe.AddEmitted(map[string]interface{}{"partial": true})
@@ -566,6 +583,8 @@ func nativeAction(a *ref.Action) *core.FuncAction {
 				}
 			case "del":
 				delete(w, op.K)
+			case "setundef":
+				w[op.K] = nil
 			case "globalinc":
 				gi++
 				w["g"] = 2 * gi
